@@ -637,3 +637,26 @@ Proof.
   - unfold stepG. destruct (keeps_grouped o) eqn:K; auto. unfold step.
     destruct (op_pre g o) eqn:P; auto. apply exec_preserves_AllGrouped; auto.
 Qed.
+
+(* ------------------------------------------------------------------------------------------ *)
+(* specifications used by Properties_C09                                                       *)
+(* ------------------------------------------------------------------------------------------ *)
+Lemma swap_remove_spec : forall (l : list nport) (a x : nport),
+  In a l ->
+  count_np x (swap_remove nport_eq_dec a l) = (if nport_eq_dec x a then count_np x l - 1 else count_np x l)
+  /\ S (length (swap_remove nport_eq_dec a l)) = length l.
+Proof.
+  intros l a x H. split; [|apply length_swap_remove; auto]. unfold count_np.
+  destruct (nport_eq_dec x a) as [->|Hne]; [apply count_swap_remove_eq | apply count_swap_remove_neq]; auto.
+Qed.
+
+Lemma bypass_drv_spec : forall g n o i x,
+  Inv g -> drv g (n, i) <> Some (n, o) ->
+  drv (bypassOutputToInput g n o i) x = if onport_eq_dec (drv g x) (Some (n, o)) then drv g (n, i) else drv g x.
+Proof.
+  intros g n o i x I Hs. unfold bypassOutputToInput.
+  assert (E : consistent nport_eq_dec (drv g) (cons g)) by apply I.
+  destruct (onport_eq_dec (drv g x) (Some (n, o))) as [D|D].
+  - apply bypass_loop_drv_moved; auto. apply bypass_src_valid; auto.
+  - apply bypass_loop_drv_other; auto. apply bypass_src_valid; auto.
+Qed.
